@@ -54,6 +54,38 @@ claimed = {
          "At check time /repo's working tree is copied and the sync import of the library is redirected to a shim: every Lock/RLock/Unlock/RUnlock is a scheduling point of a cooperative scheduler, blocked acquires are disabled threads, no enabled thread is a deadlock. Hand-offs between goroutines are raw pipe syscalls in norace code, so the worker, built with -race, has the race detector judge every explored schedule by the library's own synchronisation only. Explored: all multisets of three reader operations (of 10, thorough 15: cache-hit ToEntry, Find of grafted/deep nodes, Namespace, first-time and repeated InstantiatingModule / FindModuleByNamespace for same, different and unknown namespaces, ReadOnly, DefaultValues, GetErrors, Print, full dump) on one shared processed set, 2x2 operation sequences, and 2-3 independent load-process-dump pipelines; every schedule within a preemption bound chosen per scenario from its number of scheduling points (2/1/0 quick, 3/2/1 thorough): 40 k schedules quick. Oracles per schedule: results equal the sequential results, no deadlock, no race report. A free-running -race stress of the same bodies is a cross-check.",
          "Trusted: the scheduler shim and its invisibility to the race detector (measured: a planted unguarded map is reported, the guarded one is not). Scheduling points are lock operations only; memory-model reorderings between non-synchronising instructions are not permuted. A race report needs one reproduction out of five replays (the detector's shadow memory is bounded), everything else five of five.",
          "DESIGN.md §3 C19"),
+ "C04": ("exhaustive enumeration of schema families with an invariant walk over every resulting tree",
+         "Every module set of the USES, AUG and CFG families, of the prefix-variant sets and of the conflict library (56 k sets quick, two load orders each) is loaded and processed; on the 24 k sets that process without error every module and submodule tree is walked over Dir and RPC.Input/Output with a pointer-identity visited set and the statement's invariants are evaluated on every node (filed under own name, parent link, single path / no shared node objects, kind vs. type vs. child map vs. list attributes, choice children are cases, no unapplied augments, no recorded errors, GetErrors empty), before and after lookups that create rpc input/output on demand.",
+         "Trusted: the family generators (they decide which trees exist). Sets on which Process reports errors are outside the quantifier.",
+         "DESIGN.md §3 C04"),
+ "C06": ("exhaustive enumeration of the USES family vs. a reference inliner, plus differential independence runs",
+         "USES family: 11 grouping bodies (nested uses to depth 3, list, leaf-list with bounds and with three defaults, choice, nested choices below shorthand members, action, local typedef, default, anydata) x 4 definition sites (top of a, container of a, submodule, other module) x all pairs of 10 using sites x type spelled string / a typedef t that is shadowed differently in each scope: every tree is compared node by node with the reference inlining of package ir (names, kinds, type resolved in the definition scope, defaults, bounds, read-only, namespace, instantiating module, parent links). Independence: every instance is mutated from a further module by an augment or one of ten deviations and the other instance must dump exactly as without the mutating module; then both instances are mutated at once and each must equal its single-mutation run. 47 k executions quick.",
+         "Trusted: package ir (reference inliner, 400 lines). refine and uses-augment are outside the claim.",
+         "DESIGN.md §3 C06"),
+ "C07": ("exhaustive enumeration of the AUG family in all load orders vs. a reference graft",
+         "AUG family over base module a (with a submodule) and augmenting modules b, c: every single augment (owner x 21 targets x 8 bodies), a seventh (thorough: half) of all ordered pairs, and three-augment chains whose later targets are created by earlier augments in 4 declaration orders x 64 owner assignments; every load order of the 2-4 files: 51 k augment lists, 368 k executions quick. The reference grafts to a fixpoint, stamps the augmenting module, inserts implicit cases afterwards and predicts errors (missing target, leaf/leaf-list target, name collision). Compared: error/no error, the whole tree of a, and equality of the dump across load orders.",
+         "Trusted: package ir (reference graft). Implicit cases as targets and augments of the rpc node itself are outside the alphabet.",
+         "DESIGN.md §3 C07"),
+ "C08": ("exhaustive enumeration of the DEV family vs. RFC 7950 7.20.3 applied as a delta, with a frame condition",
+         "17 targets x every single deviate statement (not-supported, unknown kind, add/replace/delete x 18 properties and 5 property pairs) x every ordered pair of deviate statements, the ignore-not-supported option, and two deviating modules on equal and different targets: 98 k deviation lists quick. The reference applies RFC 7950 7.20.3 in written order to the attributes the library itself reports without the deviating modules; listed inapplicable cases must give an error; every node that is not a target must dump exactly as in the un-deviated tree (the other use of a grouping included).",
+         "Trusted: the reference rule table. Combinations RFC 7950 forbids but the statement does not list are don't-care for the touched attribute and for error/no error; the inherited read-only flag is C12's business.",
+         "DESIGN.md §3 C08"),
+ "C09": ("exhaustive enumeration of typedef scopes, spellings and derivation chains vs. a reference binder",
+         "bind: typedef t declared at every subset of <= 3 of 11 scopes (module, submodule, container, list, grouping, rpc, input, output, notification, imported module, its submodule), each with its own base type, referenced from 10 sites with 5 spellings, 2 load orders; chain: three-level chains with all 2^9 set/omit patterns of units/default/pattern and four kinds of leaf additions for strings, 2^6 for enum, bits, leafref, decimal64, union and identityref bases, read at two narrowing leaves (aliasing), a plain leaf, a leaf-list and a mandatory leaf; errors: 22 unknown/unresolvable/cyclic references in a module and in a submodule, processed twice. 11 k programs.",
+         "Trusted: package ir (binder) and the overlay rule. Programs declaring t twice in one module-wide name space are excluded as invalid.",
+         "DESIGN.md §3 C09"),
+ "C11": ("exhaustive enumeration of derivation graphs x load orders x map-iteration orders vs. reverse reachability",
+         "Every subset of the N^2 base edges over N <= 3 (thorough 4, <= 5 edges) identities x every placement in module a, module b and a submodule of a x distinct / equal names x two prefix regimes (prefix = module name; both modules declare the same prefix) x two spellings of local bases, plus undefined bases: 107 k programs quick, each loaded in all 6 orders and - where equal names or a shared prefix make ties possible - under every single deviation of map iteration order on the instrumented build (744 k executions). Values of every identity must be exactly the reverse-reachability set, duplicate-free, without itself, and the same sequence in every execution; identityref leaves must point at the named identity object; cycles and undefined bases must give an error.",
+         "Trusted: the graph closure (15 lines); the instrumenter (suite run on the copy each time).",
+         "DESIGN.md §3 C11"),
+ "C12": ("exhaustive enumeration of config assignments over composition contexts vs. evaluation on the normalised tree",
+         "CFG family: every assignment of config unset/true/false to the nodes of a path through plain nesting (3^5), uses with config at the user and inside two nested groupings (3^4 x 3 users), augment from another module, from a submodule and from the module itself (3^4 x 3), choice/case/implicit case (3^5), and rpc/action/notification contexts under 9 ancestor configurations, all load orders; plus the USES and AUG families for namespace attribution: 23 k programs. ReadOnly(), Namespace() and InstantiatingModule() of every node are compared with the reference evaluation.",
+         "Trusted: package ir. No explicit config inside rpc/action/notification (outside the quantifier).",
+         "DESIGN.md §3 C12"),
+ "C17": ("exhaustive all-pairs path lookups on every clean tree of the family corpus (pointer-identity oracle)",
+         "On every third (thorough: every) program of the USES, AUG and CFG families, the prefix-variant sets (modules that know each other under prefixes differing from their names, between importers, and colliding with other module names) and the conflict library: for every ordered pair of nodes over all module trees, Find of the absolute path spelled with the prefixes of the module that defines the start node, Find of the relative path through the lowest common ancestor, and each with one bogus step at every position: 44 M lookups quick. Must return the target by pointer identity, respectively nil.",
+         "Trusted: the tree walk. Pairs whose path needs a prefix the start's defining module does not import are outside the quantifier.",
+         "DESIGN.md §3 C17"),
 }
 pending_reason = "check not built yet in this session (see DESIGN.md §12 build order); it will be claimed once its harness exists and is quiet on the unchanged tree"
 not_applicable_reasons = {}
